@@ -189,6 +189,20 @@ func (c12) Gen(rng *rand.Rand, tier string, k int) *Case {
 			}
 		}
 	}
+	if c.Impl == "file" && rng.Intn(3) == 0 {
+		// the target's disk: full after k bytes, a failing close, an append-open that fails
+		for _, i := range rng.Perm(len(c.Assets))[:1+rng.Intn(min(2, len(c.Assets)))] {
+			kind := []string{"fs-write-budget", "fs-write-budget", "fs-close-error", "fs-open-write-error"}[rng.Intn(4)]
+			// one fault per asset: the stub of a failing Append feeds the real Append and would wait for it
+			keep := c.Faults[:0:0]
+			for _, f := range c.Faults {
+				if f.Name != c.Assets[i].Name {
+					keep = append(keep, f)
+				}
+			}
+			c.Faults = append(keep, FaultSpec{Kind: kind, Name: "/" + c.Assets[i].Name + ".csv", At: rng.Intn([]int{20, 60, 150}[rng.Intn(3)]), N: 1})
+		}
+	}
 	c.Policy = genPolicy(rng)
 	return c
 }
@@ -341,6 +355,7 @@ func (c12) Run(c *Case, st *Stats) []Violation {
 	clientDone := false
 	var srcF, tgtF *FaultRepo
 	var runTimes []float64
+	fsFired := false
 	out := simulate(SimOpts{Policy: c.Policy, Record: c.Record, MaxSteps: 3_000_000}, func(s *simrt.Sim) {
 		simrt.GoKind("client", func() {
 			defer func() { clientDone = true }()
@@ -404,9 +419,13 @@ func (c12) Run(c *Case, st *Stats) []Violation {
 					srcF.FailGet[f.Name] = true
 				case "append-fail":
 					tgtF.FailAppend[f.Name] = f.At
+				default:
+					continue // file faults: see plan
 				}
 				faulted[f.Name] = true
 			}
+			plan := fsPlan(c.Faults)
+			fsFailed := func(n string) bool { return plan.FiredOn("/"+n+".csv") > 0 }
 			// the asset list the run works on
 			var list []string
 			if c.Mode == "explicit" {
@@ -450,7 +469,11 @@ func (c12) Run(c *Case, st *Stats) []Violation {
 					sy.Assets = append([]string{}, c.Names...)
 				}
 				t0 := s.Elapsed()
+				if run == 1 {
+					s.SetFaults(plan)
+				}
 				err := sy.Run(srcF, tgtF, defaultStart)
+				s.SetFaults(nil)
 				runTimes = append(runTimes, (s.Elapsed() - t0).Seconds())
 				regime := fmt.Sprintf("run%d", run)
 				if el := (s.Elapsed() - t0).Seconds(); el > float64(len(list)*c.Delay)+1e-9 {
@@ -460,7 +483,7 @@ func (c12) Run(c *Case, st *Stats) []Violation {
 				// expected error status
 				wantErr := false
 				for _, n := range list {
-					if srcMissing(n) || (run == 1 && faulted[n]) {
+					if srcMissing(n) || (run == 1 && faulted[n]) || fsFailed(n) {
 						wantErr = true
 					}
 				}
@@ -479,6 +502,9 @@ func (c12) Run(c *Case, st *Stats) []Violation {
 						got, ok = nil, true
 					}
 					exp := want[a.Name]
+					if fsFailed(a.Name) {
+						continue // the write to this file failed part-way: its state is not specified
+					}
 					switch {
 					case !inList[a.Name] || srcMissing(a.Name):
 						exp = before[a.Name] // untouched
@@ -524,6 +550,16 @@ func (c12) Run(c *Case, st *Stats) []Violation {
 					}
 				}
 				st.Probes["runs-compared-with-model"]++
+				if plan.TotalFired() > 0 {
+					// reported, and the other assets are complete; what a later run makes of a
+					// torn file is outside the statement
+					st.Probes["runs-with-a-failed-target-file"]++
+					fsFired = true
+					for k, v := range plan.FiredKinds() {
+						st.Faults[k] += v
+					}
+					return
+				}
 				if run == 3 {
 					st.Probes["idempotence-runs"]++
 				}
@@ -539,7 +575,7 @@ func (c12) Run(c *Case, st *Stats) []Violation {
 		simDBsMu.Unlock()
 	}
 	st.noteSim(out)
-	fired := false
+	fired := fsFired
 	for _, f := range []*FaultRepo{srcF, tgtF} {
 		if f != nil {
 			for k, v := range f.Fired {
@@ -571,7 +607,13 @@ func (c12) Run(c *Case, st *Stats) []Violation {
 	}
 	if len(vs) == 0 {
 		if lib := out.LibStuck(); len(lib) > 0 {
-			add("leak", "-", stuckSummary(lib))
+			if fsFired {
+				// an Append that fails at open or mid-write returns without draining the stream it
+				// was given; what becomes of the source's stream then is not part of the statement
+				st.Probes["source-stream-left-undrained-after-failed-append(not claimed)"]++
+			} else {
+				add("leak", "-", stuckSummary(lib))
+			}
 		}
 	}
 	return vs
